@@ -3,7 +3,7 @@ From Coq Require Import List NArith Bool String Lia Permutation.
 From JV.lib Require Import Bytes.
 From JV.gen Require Import DirectiveTables TagName.
 From JV.model Require Import ScannerSem Core Description PathParams TagTitle Catalog.
-From JV.proofs Require Import BytesLemmas TagNameProofs CatalogProofs FaithfulProofs ContentProofs InfoProofs FaithfulExamples LocalityProofs OrderProofs.
+From JV.proofs Require Import BytesLemmas TagNameProofs CatalogProofs FaithfulProofs ContentProofs InfoProofs FaithfulExamples LocalityProofs OrderProofs FrameProofs InsertProofs.
 Import ListNotations.
 Open Scope N_scope.
 Local Open Scope string_scope.
@@ -54,4 +54,23 @@ Proof.
   - apply Permutation_rev.
   - do 2 eexists. split; [vm_compute; reflexivity|]. split; [vm_compute; reflexivity|].
     repeat split; vm_compute; reflexivity.
+Qed.
+
+(* C20 (b): the new SERVER in front of the old one; the new TYPE / ENUM in the middle *)
+Definition ex_new_enum : dtree := L KEnum "ENUM" 400 [("Name", "@e2")] [] "two" (Some (410, 415)) [].
+Definition ex_mid (k : nat) (t : dtree) : list dtree := firstn k ex_full_forest ++ t :: skipn k ex_full_forest.
+
+Lemma insertion_example :
+  exists c c1 c2 c3,
+    ex_build ex_full_forest = COk c /\
+    ex_build (ex_mid 2 ex_new_server) = COk c1 /\ map fst (c_servers c1) = [bs "@s2"; bs "@s"] /\
+    c1 = upd_servers c (c_servers c1) /\
+    ex_build (ex_mid 4 ex_new_type) = COk c2 /\ map fst (c_types c2) = [bs "@dog"; bs "@cat"] /\
+    ex_build (ex_mid 7 ex_new_enum) = COk c3 /\ c_enums c3 = [(bs "@e", []); (bs "@e2", bs "two")] /\
+    c3 = upd_enums c (c_enums c3).
+Proof.
+  do 4 eexists.
+  split; [vm_compute; reflexivity|]. split; [vm_compute; reflexivity|]. split; [vm_compute; reflexivity|].
+  split; [vm_compute; reflexivity|]. split; [vm_compute; reflexivity|]. split; [vm_compute; reflexivity|].
+  split; [vm_compute; reflexivity|]. split; vm_compute; reflexivity.
 Qed.
